@@ -435,6 +435,7 @@ func (e *vfE7Env) run(c vfE7Case) (status int, reqs []string) {
 		rd = strings.NewReader(c.body)
 	}
 	var received http.Header
+	pageFlag := ""
 	if c.direct {
 		req := httptest.NewRequest(c.method, path, rd)
 		req.RemoteAddr = c.remote
@@ -458,10 +459,20 @@ func (e *vfE7Env) run(c vfE7Case) (status int, reqs []string) {
 		if err != nil {
 			e.t.Fatalf("request %s %s: %v", c.method, path, err)
 		}
+		page, _ := io.ReadAll(io.LimitReader(resp.Body, 1<<20))
 		io.Copy(io.Discard, resp.Body)
 		resp.Body.Close()
 		status = resp.StatusCode
 		received = e.gotHdr
+		// the index page tells the browser whether to show the admin controls: `var IS_ADMIN = {{.IsAdmin}};`
+		if c.method == "GET" && status == 200 && strings.HasPrefix(resp.Header.Get("Content-Type"), "text/html") {
+			if i := strings.Index(string(page), "var IS_ADMIN = "); i >= 0 {
+				rest := string(page)[i+len("var IS_ADMIN = "):]
+				if j := strings.Index(rest, ";"); j >= 0 {
+					pageFlag = "isadmin=" + strings.TrimSpace(rest[:j])
+				}
+			}
+		}
 	}
 	reqs = e.cl.log.take()
 	// notifications: the handler starts `go func() { notifications <- a }()` before it answers
@@ -607,6 +618,9 @@ func (e *vfE7Env) run(c vfE7Case) (status int, reqs []string) {
 		}
 		if len(posts) > 0 {
 			rs = "*|" + strings.Join(posts, "|")
+		}
+		if pageFlag != "" && rs == "-" {
+			rs = pageFlag
 		}
 	} else if len(reqs) > 0 {
 		rs = strings.Join(reqs, "|")
